@@ -8,8 +8,7 @@ CONSTANTS
   MaxForeign = 0
   ForeignRows <- MCForeignSmall
   Selectors <- MCSelNone
-  TargetEcu = "tgt"
-  TargetProps <- MCTargetProps
+  Groups <- MCGroups
   Export = TRUE
   Dev_S18_ResetOnSilentRow = FALSE
   Dev_S19_ClientTracksSessionRead = FALSE
@@ -20,4 +19,5 @@ INVARIANT Y1_RepliesAsRecorded
 INVARIANT Y2_IndependentOfOthers
 INVARIANT ContractHolds
 INVARIANT CursorFollowsRecording
+INVARIANT VerdictIsFunctionOfState
 CHECK_DEADLOCK FALSE
